@@ -4,6 +4,7 @@ import os
 
 from harness import common
 from harness import evidence
+from harness import families
 from harness import gen
 from harness import meta
 from harness import semrun
@@ -16,9 +17,17 @@ def Cases(tier):
   nvar = 4 if tier == 'quick' else 8
   rng = common.Rng('c07')
   cases = []
-  for i in range(n):
-    profile = gen.CORE if i % 2 == 0 else gen.AGG7
-    prog, query, feats = gen.Generate(rng, profile)
+  fams = families.C08_FAMILIES + families.SEM_FAMILIES
+  n_fam = (1 if tier == 'quick' else 12) * len(fams)
+  for i in range(n + n_fam):
+    if i >= n:
+      # directed shapes (injection x combines x names, if-chains, repeated
+      # calls ...) are permuted and renamed as well
+      name, fn = fams[(i - n) % len(fams)]
+      prog, query, feats = fn(rng)
+    else:
+      profile = gen.CORE if i % 2 == 0 else gen.AGG7
+      prog, query, feats = gen.Generate(rng, profile)
     base = {'id': 'b%d' % i, 'prog': prog, 'query': query, 'keep_sql': True,
             'meta': {'features': feats + ['base'], 'source': 'random'}}
     cases.append(base)
@@ -40,7 +49,7 @@ def Cases(tier):
   return cases + semrun.Reproducers(PROP)
 
 
-REQUIRED = ['variant_permute', 'variant_rename_vars', 'variant_rename_preds',
+REQUIRED = ['fam_inject_combine', 'fam_if_chain', 'variant_permute', 'variant_rename_vars', 'variant_rename_preds',
             'variant_all', 'distinct', 'negation', 'multi_rule', 'disjunction']
 
 
